@@ -638,9 +638,63 @@ def image_info(c):
     for m in c["models"]:
         for a in m["actions"]:
             if a.get("kind") == "write" and a["bucket"] == "image":
-                dts.add(a["dtype"])
+                dts.update(a.get("dtypes") or [a["dtype"]])
                 mx = max(mx, max(a["per_step"]) + c["rows"] * c["cols"])
     return dts, mx
+
+
+WIDTH = dict(uint8=8, uint16=16, uint32=32, uint64=64, float16=16, float32=32, float64=64)
+
+
+def slices_detail(c, o) -> list:
+    """Which parts of the bucket node differ from the recorder's snapshots (classification of a clause-2 violation
+    only; the decision was taken inside Coq)."""
+    res = o.get("result") or {}
+    out = []
+    if res.get("time") != [c["start"] + t for t in c["times"]] or [l for l, _ in o["snaps"]] != res.get("time"):
+        out.append("time")
+    if res.get("y") != list(range(c["rows"])) or res.get("x") != list(range(c["cols"])):
+        out.append("coords")
+    got = {v["name"]: v for v in res.get("vars", [])}
+    for b in BUCKETS:
+        want = [s.get(b) for _, s in o["snaps"]]
+        v = got.get(b)
+        if v is None:
+            out.append(f"missing:{b}")
+            continue
+        if all(w is None for w in want):
+            if v["dims"] != ["time"] or v["vals"]:
+                out.append(f"values:{b}")
+            continue
+        if any(w is None for w in want) and b == "image":
+            continue                                    # not judged
+        k = None
+        flat = []
+        for w in want:
+            if w is None:
+                flat += [SENTINEL] * (k or 0)
+            else:
+                k = len(w[2])
+                flat += [to_int(x) for x in w[2]]
+        first = next(w for w in want if w is not None)
+        if v["shape"] != [len(want)] + list(first[1]):
+            out.append(f"shape:{b}")
+        elif any(w is None for w in want):
+            # NaN slices: compare the initialised ones only
+            n_el = len(first[2])
+            ok = True
+            for i, w in enumerate(want):
+                chunk = v["vals"][i * n_el:(i + 1) * n_el]
+                ok &= (chunk == [to_int(x) for x in w[2]]) if w is not None else all(x == SENTINEL for x in chunk)
+            if not ok:
+                out.append(f"values:{b}")
+        elif v["vals"] != flat:
+            out.append(f"values:{b}")
+        if b == "image" and all(w is not None for w in want):
+            widest = max((w[0] for w in want), key=lambda d: WIDTH.get(d, 0))
+            if v["dtype"] != widest:
+                out.append("dtype:image")
+    return out
 
 
 def classify(c, o, clause: int) -> dict:
@@ -667,6 +721,15 @@ def classify(c, o, clause: int) -> dict:
                 sig["input"] = "other"
         else:
             sig["input"] = "other"
+        detail = slices_detail(c, o)
+        if sig["input"] == "other":
+            # the image's unsigned type differs between the readouts and a later one is narrower; only the image differs
+            idt = [s["image"][0] if s.get("image") else None for _, s in o["snaps"]]
+            if (all(d in UMAX for d in idt) and any(WIDTH[idt[j]] < WIDTH[idt[i]] for i in range(len(idt)) for j in range(i + 1, len(idt)))
+                    and detail and set(detail) <= {"values:image", "dtype:image"}):
+                sig["input"] = "image_dtype_narrows_between_readouts"
+            else:
+                sig["detail"] = "+".join(detail) or "?"
     elif clause == 6:
         sig["input"] = "other"
         res = o.get("result") or {}
@@ -821,7 +884,7 @@ def run(ctx: Ctx):
 
     r = ctx.rng("cases")
     cases = fixed_cases()
-    budget = ctx.budget(160, 1200)
+    budget = ctx.budget(220, 1300)
     aimed = [dict(buckets=["photon", "signal", "pixel"], n=3, partial=True), dict(buckets=["photon"], n=4, partial=True, debug=True),
              dict(buckets=["signal", "image"], n=2, partial=True), dict(buckets=["pixel"], n=3), dict(buckets=["photon", "signal"], n=2), dict(debug=True, n=3),
              dict(debug=True, nondestr=True, n=2), dict(scene=True, hier=False), dict(data=True, n=4),
@@ -892,6 +955,7 @@ def run(ctx: Ctx):
         ctx.sample(dict(case=c, returned=brief(o)))
     known = core.load_findings(ctx.prop)
     reported = set()
+    shrunk = 0
     for i in sorted(viol):
         c, o = pairs[i]
         for clause in viol[i]:
@@ -906,7 +970,9 @@ def run(ctx: Ctx):
                 continue
             reported.add(key)
             reported.add(key + "k")
-            ctx.violations.append(to_violation(ctx, c, o, clause, do_shrink=not is_known))
+            # every class is reported with its concrete input; the first few are minimised as well
+            ctx.violations.append(to_violation(ctx, c, o, clause, do_shrink=not is_known and shrunk < 4))
+            shrunk += 0 if is_known else 1
     (ctx.build / "mismatches.json").write_text(json.dumps([dict(case=pairs[i][0], observed=brief(pairs[i][1])) for i in mism], indent=1))
     for i in mism[:5]:
         c, o = pairs[i]
@@ -944,7 +1010,7 @@ def search(ctx: Ctx):
             if key in done or any(core.finding_matches(e, v0) for e in known):
                 continue
             done.add(key)
-            ctx.violations.append(to_violation(ctx, c, o, clause))
+            ctx.violations.append(to_violation(ctx, c, o, clause, do_shrink=len(done) <= 3))
     ctx.cov["search_cases"] = len(pairs)
 
 
